@@ -118,3 +118,25 @@ def run(ctx):
             ctx.ob(r is not None, '%s in %s %s' % (s.what[:70], short(v.path), ('— ' + r) if r else 'can panic for an accepted configuration'), 'nopanic|' + s.key(), loc=s.loc(),
                    detail=None if r else {'rng': 'a zero base period with uniform jitter makes the range 0..0 empty: rand panics', 'time-arith': 'Duration * 2 panics on overflow when the period is close to Duration::MAX'}.get(s.kind))
     ctx.floor(n, 1, 'panic-capable sites in the back-off step')
+    # ---- added after seed C19-3b: the drivers measure the whole wait once; events arriving during the wait must not restart it
+    ctx.rule('R-C19-5', 'T3 loop structure', 'both drivers fix the end of the reconnect wait once, before their wait loop: the timer / deadline is not re-created inside the loop (so the wait actually served is the computed period, whatever arrives meanwhile)')
+    nd = 0
+    for suffix, mk in (('client::asynchronous::tokio::ClientRuntimeState::process_pending_reconnect::{closure#0}', 'tokio::time::sleep'),
+                       ('client::synchronous::threaded::ClientRuntimeState::process_pending_reconnect', 'Add::add')):
+        vs = [F.view(k) for k in F.fns if norm(k.split('#')[0]) == suffix or norm(F.fns[k]['path']) == suffix]
+        vs = vs or [v_ for v_ in F.all_fns() if re.sub(r'::<[^<>]*>', '', norm(v_.path)).endswith(suffix.split('client::', 1)[1])]
+        if not vs:
+            continue
+        v = vs[0]
+        nd += 1
+        succ_, _, _ = v.graph()
+        if 'tokio' in suffix:
+            sl = [c for c in v.calls() if c.nfn == 'tokio::time::sleep' or c.nfn.endswith('time::sleep::sleep') or c.nfn.endswith('::sleep') and 'tokio' in c.fn]
+            ok = len(sl) == 1 and show(sl[0].arg(0)) == 'wait' and sl[0].bb not in v.reach(list(succ_[sl[0].bb]))
+            ctx.ob(ok, 'tokio: one reconnect timer sleep(wait), created outside the wait loop (%s)' % [(c.nfn, c.ln) for c in sl], 'wait-once|tokio', loc=v.loc())
+        else:
+            dl = [(b, show(e)) for b, e in var_inits(v, 'timeout_timepoint')]
+            ok = len(dl) == 1 and re.match(r'^Add::add\(Instant::now\(\), wait\)$', dl[0][1]) is not None and dl[0][0] not in v.reach(list(succ_[dl[0][0]]))
+            ctx.ob(ok, 'threaded: the deadline now + wait is computed once, outside the wait loop (%s)' % [x for b, x in dl], 'wait-once|threaded', loc=v.loc())
+    if ctx.config == 'all':
+        ctx.floor(nd, 2, 'pending-reconnect driver loops')
